@@ -15,6 +15,29 @@ use std::time::Duration;
 
 thread_local! {
 	static TASK: Cell<Option<usize>> = Cell::new(None);
+	/// set for a thread the scheduler adopted (one the wallet code spawned itself): its
+	/// destructor runs when that thread exits and hands the baton on
+	static EXIT_GUARD: std::cell::RefCell<Option<ExitGuard>> = std::cell::RefCell::new(None);
+}
+
+struct ExitGuard {
+	sched: Arc<Sched>,
+	id: usize,
+}
+
+impl Drop for ExitGuard {
+	fn drop(&mut self) {
+		self.sched.task_end(self.id);
+	}
+}
+
+lazy_static::lazy_static! {
+	/// the scheduler in force (needed by a thread that is adopted from inside a hook)
+	static ref CURRENT: Mutex<Option<Arc<Sched>>> = Mutex::new(None);
+}
+
+pub fn set_current(s: Option<Arc<Sched>>) {
+	*CURRENT.lock().unwrap() = s;
 }
 
 #[derive(Clone, Debug, Default)]
@@ -23,6 +46,10 @@ struct TaskSt {
 	finished: bool,
 	depth: u32,
 	yields: u32,
+	/// not runnable until all of these tasks have finished
+	waits_for: Vec<usize>,
+	/// not runnable until this task has started (been adopted)
+	waits_started: Option<usize>,
 }
 
 struct St {
@@ -40,6 +67,9 @@ struct St {
 	decisions: usize,
 	log: Vec<String>,
 	gap_runs: u64,
+	/// a task slot reserved for a thread the code under test spawns itself (the
+	/// wallet's "wallet-updater" thread); adopted at its first hook call
+	adopt_slot: Option<usize>,
 }
 
 pub struct Sched {
@@ -49,6 +79,13 @@ pub struct Sched {
 
 impl Sched {
 	pub fn new(n_tasks: usize, seed: u64, follow: Vec<usize>, pct: bool) -> Arc<Sched> {
+		Self::new_with_slot(n_tasks, seed, follow, pct, false)
+	}
+
+	/// `adopt`: one more task slot (index `n_tasks`) for the wallet's own updater thread
+	pub fn new_with_slot(n_tasks: usize, seed: u64, follow: Vec<usize>, pct: bool, adopt: bool) -> Arc<Sched> {
+		let adopt_slot = if adopt { Some(n_tasks) } else { None };
+		let n_tasks = if adopt { n_tasks + 1 } else { n_tasks };
 		let mut rng = SimRng::new(seed ^ 0x5c4ed);
 		let priorities = if pct {
 			let mut p: Vec<usize> = (0..n_tasks).collect();
@@ -74,6 +111,7 @@ impl Sched {
 				decisions: 0,
 				log: vec![],
 				gap_runs: 0,
+				adopt_slot,
 			}),
 			cv: Condvar::new(),
 		})
@@ -84,7 +122,12 @@ impl Sched {
 			.tasks
 			.iter()
 			.enumerate()
-			.filter(|(_, t)| !t.finished)
+			.filter(|(_, t)| {
+				!t.finished
+					&& t.started
+					&& t.waits_for.iter().all(|&j| st.tasks[j].finished)
+					&& t.waits_started.map(|j| st.tasks[j].started).unwrap_or(true)
+			})
 			.map(|(i, _)| i)
 			.collect();
 		if runnable.is_empty() {
@@ -130,15 +173,97 @@ impl Sched {
 		st.tasks[id].finished = true;
 		st.log.push(format!("end:{}", id));
 		st.current = Self::pick(&mut st);
-		TASK.with(|t| t.set(None));
+		let _ = TASK.try_with(|t| t.set(None));
 		self.cv.notify_all();
+	}
+
+	/// the calling task is not runnable until the given tasks have finished; yields
+	pub fn wait_finished(&self, others: &[usize]) {
+		let id = match TASK.with(|t| t.get()) {
+			Some(i) => i,
+			None => return,
+		};
+		{
+			let mut st = self.st.lock().unwrap();
+			st.tasks[id].waits_for = others.to_vec();
+		}
+		self.yield_now("wait");
+		let mut st = self.st.lock().unwrap();
+		st.tasks[id].waits_for.clear();
+	}
+
+	/// the calling task (which holds the baton) waits in real time until the reserved
+	/// slot has been adopted; nothing else runs meanwhile, so this is not a decision
+	pub fn wait_adopted(&self, real_timeout: Duration) -> bool {
+		let mut st = self.st.lock().unwrap();
+		let slot = match st.adopt_slot {
+			Some(s) => s,
+			None => return false,
+		};
+		let start = std::time::Instant::now();
+		while !st.tasks[slot].started {
+			let (g, _) = self.cv.wait_timeout(st, Duration::from_millis(50)).unwrap();
+			st = g;
+			if start.elapsed() > real_timeout {
+				return false;
+			}
+		}
+		true
+	}
+
+	/// the reserved slot will never be used (the thread was not started)
+	pub fn abandon_slot(&self) {
+		let mut st = self.st.lock().unwrap();
+		if let Some(slot) = st.adopt_slot {
+			if !st.tasks[slot].started {
+				st.tasks[slot].started = true;
+				st.tasks[slot].finished = true;
+			}
+		}
+	}
+
+	pub fn slot(&self) -> Option<usize> {
+		self.st.lock().unwrap().adopt_slot
+	}
+
+	pub fn is_finished(&self, id: usize) -> bool {
+		self.st.lock().unwrap().tasks[id].finished
+	}
+
+	/// a thread without a task id called a hook: adopt it if it is the wallet's
+	/// updater thread and a slot is reserved. Returns after the thread got the baton.
+	fn try_adopt(&self) -> bool {
+		if std::thread::current().name() != Some("wallet-updater") {
+			return false;
+		}
+		let me = match CURRENT.lock().unwrap().clone() {
+			Some(m) => m,
+			None => return false,
+		};
+		let mut st = self.st.lock().unwrap();
+		let slot = match st.adopt_slot {
+			Some(s) if !st.tasks[s].started => s,
+			_ => return false,
+		};
+		TASK.with(|t| t.set(Some(slot)));
+		EXIT_GUARD.with(|g| *g.borrow_mut() = Some(ExitGuard { sched: me, id: slot }));
+		crate::entropy::set_thread_ordinal(900 + slot as u64);
+		grin_core::global::set_local_chain_type(grin_core::global::ChainTypes::AutomatedTesting);
+		st.tasks[slot].started = true;
+		st.log.push(format!("adopt:{}", slot));
+		self.cv.notify_all();
+		while st.current != Some(slot) {
+			st = self.cv.wait(st).unwrap();
+		}
+		true
 	}
 
 	/// the simulator: wait until every task thread has parked, hand out the baton,
 	/// wait for all to finish. Returns false on a (real-time) deadlock timeout.
 	pub fn run_all(&self, real_timeout: Duration) -> bool {
 		let mut st = self.st.lock().unwrap();
-		while st.tasks.iter().any(|t| !t.started) {
+		let slot = st.adopt_slot;
+		while st.tasks.iter().enumerate().any(|(i, t)| !t.started && Some(i) != slot) {
 			st = self.cv.wait(st).unwrap();
 		}
 		st.current = Self::pick(&mut st);
@@ -150,6 +275,10 @@ impl Sched {
 			if to.timed_out() && start.elapsed() > real_timeout {
 				return false;
 			}
+			if st.current.is_none() && st.tasks.iter().any(|t| !t.finished) {
+				// nobody can run although tasks are unfinished
+				return false;
+			}
 		}
 		true
 	}
@@ -157,7 +286,12 @@ impl Sched {
 	fn yield_now(&self, what: &str) {
 		let id = match TASK.with(|t| t.get()) {
 			Some(i) => i,
-			None => return,
+			None => {
+				// the adopted thread starts with the baton in hand: its first lock
+				// section follows at once (the hand-over itself was the decision)
+				self.try_adopt();
+				return;
+			}
 		};
 		let mut st = self.st.lock().unwrap();
 		if st.tasks[id].depth > 0 {
@@ -215,7 +349,25 @@ impl SchedHooks for Sched {
 		}
 	}
 	fn sleep(&self, d: Duration) {
+		if TASK.with(|t| t.get()).is_none() {
+			self.try_adopt();
+		}
 		crate::hooks::advance_ms(d.as_millis() as i64);
+		if let Some(id) = TASK.with(|t| t.get()) {
+			// a task that goes to sleep lets the others run: under fixed priorities it
+			// moves to a seeded lower position (otherwise a sleeping loop on top of the
+			// order would starve everybody else)
+			let mut st = self.st.lock().unwrap();
+			if let Some(mut p) = st.priorities.clone() {
+				if let Some(pos) = p.iter().position(|t| *t == id) {
+					p.remove(pos);
+					let at = 1 + st.rng.idx(p.len().max(1));
+					let at = at.min(p.len());
+					p.insert(at, id);
+					st.priorities = Some(p);
+				}
+			}
+		}
 		self.yield_now("sleep");
 	}
 }
